@@ -77,6 +77,9 @@ IncSolver::IncSolver(Variables const &vs, Constraints const &cs)
         c->left->out.push_back(c);
         c->right->in.push_back(c);
         c->needsScaling = needsScaling;
+        // A flag left by an earlier solver instance says nothing about
+        // this problem instance.
+        c->unsatisfiable = false;
     }
     bs=new Blocks(vs);
 #ifdef LIBVPSC_LOGGING
@@ -97,6 +100,7 @@ void IncSolver::addConstraint(Constraint *c)
 {
     ++m;
     c->active = false;
+    c->unsatisfiable = false;
     inactive.push_back(c);
     c->left->out.push_back(c);
     c->right->in.push_back(c);
